@@ -20,6 +20,7 @@ structure P where
   c2 : Nat := 0
   w : Nat := 0
   n : Nat := 0
+  xs : List Expr := []
   deriving Repr, Inhabited
 
 structure Schema where
@@ -160,7 +161,35 @@ def and_uge_ne : Schema :=
     lhs := fun p => .app .and [.app .uge [p.x, p.y], .app .ne [p.x, p.y]]
     rhs := fun p => .app .ugt [p.x, p.y] }
 
-def all : List Schema :=
+/-! #### rules that need the (reported) width of an operand -/
+/-- `a - a ⇒ 0` -/
+def sub_self : Schema :=
+  { name := "S4.sub_self", lhs := fun p => .app .sub [p.x, p.x], rhs := fun p => bv0 p.w,
+    side := fun p => p.x.width == some p.w }
+/-- `a ^ a ⇒ 0` -/
+def xor_self : Schema :=
+  { name := "X3.xor_self", lhs := fun p => .app .bxor [p.x, p.x], rhs := fun p => bv0 p.w,
+    side := fun p => p.x.width == some p.w }
+/-- `LShR(ZeroExt(n, y), c) ⇒ 0` when `c > |y|` -/
+def lshr_zext : Schema :=
+  { name := "R3.lshr_zext", lhs := fun p => .app .lshr [.app (.zeroExt p.n) [p.y], .bvv p.c1 p.w], rhs := fun p => bv0 p.w,
+    side := fun p => match p.y.width with
+      | some wy => decide (p.w = wy + p.n ∧ wy < p.c1 ∧ p.c1 < 2 ^ p.w)
+      | none => false }
+/-- `ZeroExt(n, y) >> c ⇒ 0` (arithmetic shift) when `c > |y|` and at least one zero bit was added -/
+def ashr_zext : Schema :=
+  { name := "R3.ashr_zext", lhs := fun p => .app .ashr [.app (.zeroExt p.n) [p.y], .bvv p.c1 p.w], rhs := fun p => bv0 p.w,
+    side := fun p => match p.y.width with
+      | some wy => decide (p.w = wy + p.n ∧ wy < p.c1 ∧ p.c1 < 2 ^ p.w ∧ 0 < p.n)
+      | none => false }
+/-- `(x1 + … + xk + c1) - c2 ⇒ x1 + … + xk + (c1 - c2)` for an n-ary sum -/
+def sub_addN : Schema :=
+  { name := "S3.sub_addN"
+    lhs := fun p => .app .sub [.app .add (p.xs ++ [.bvv p.c1 p.w]), .bvv p.c2 p.w]
+    rhs := fun p => .app .add (p.xs ++ [.app .sub [.bvv p.c1 p.w, .bvv p.c2 p.w]])
+    side := fun p => decide (1 ≤ p.xs.length) }
+
+def base : List Schema :=
   [shl_zero, ashr_zero, lshr_zero, shl_shl, sub_zero, sub_sub, sub_add, add_sub,
    xor_zero_l, xor_zero_r, or_zero_l, or_zero_r, or_self, and_ones_l, and_ones_r, and_self, and_zero_l, and_zero_r,
    eq_self, ne_self, eq_true_r, eq_true_l, eq_false_r, eq_false_l, eq_swap, ne_swap, eq_sub,
@@ -168,6 +197,11 @@ def all : List Schema :=
    not_not, not_eq, not_ne, not_slt, not_sle, not_sgt, not_sge, not_ult, not_ule, not_ugt, not_uge,
    ite_true, ite_false, ite_same, ite_tf, ite_ft, ite_then_same, ite_then_neg, ite_else_same, ite_else_neg,
    invert_if, zext_zero, sext_zero, and_if, and_uge_ne]
+
+/-- rules whose side condition mentions the reported width of an operand, and the n-ary sum rule -/
+def widthy : List Schema := [sub_self, xor_self, lshr_zext, ashr_zext, sub_addN]
+
+def all : List Schema := base ++ widthy
 
 /-- schemas transcribed from the code whose soundness theorem is not proved yet (used for matching only) -/
 def unproved : List Schema := [eq_rev, rev_rev]
@@ -211,7 +245,16 @@ def proposals (t : Expr) : List P :=
          (match bvvOf t1 with | some (_, w) => [{ c := c0, z := c1, w := w }] | none => [])
        | .app _ [i, j], .app _ [_, _] => [{ x := i, y := j }]
        | _, _ => [])
-    base ++ withConst ++ nested
+    let widthy : List P :=
+      (match a.width with | some w => [{ x := a, w := w }] | none => []) ++
+      (match a, bvvOf b with
+       | .app (.zeroExt n) [y], some (v, w) => [{ y := y, n := n, c1 := v, w := w }]
+       | .app .add xs, some (v, w) =>
+         (match xs.getLast?, xs.dropLast with
+          | some (.bvv v1 _), init => [{ xs := init, c1 := v1, c2 := v, w := w }]
+          | _, _ => [])
+       | _, _ => [])
+    base ++ withConst ++ nested ++ widthy
   | .app _ [c, a, b] =>
     let base : List P := [{ c := c, x := a, y := b }]
     let n1 : List P := match a with
